@@ -394,8 +394,10 @@ func verifC14Judge(cfg *verifC14Cfg, fam int, raw []byte, flag bool, path, fn st
 	case len(raw) == 4 && fam != 6:
 		a, _ = netip.AddrFromSlice(raw)
 		if fam == 0 {
-			// ambiguous: a genuine IPv4 address, or a 16-byte address that lost 12 zero bytes
-			if in, _, _ := cfg.containing(a); !in {
+			// ambiguous: a genuine IPv4 address, or a 16-byte address that lost 12 zero bytes (::a.b.c.d).  If the IPv4
+			// reading is not fully in order (not inside an IPv4 subnet, or a flag no containing IPv4 subnet grants) and
+			// the zero-extended value IS inside a configured IPv6 subnet, the truncation is what happened.
+			if in, okFlag, _ := cfg.containing(a); !in || (flag && !okFlag) {
 				if p, ok := pad(16); ok {
 					return lz(p)
 				}
@@ -796,7 +798,8 @@ func verifC14GenCases(r *rand.Rand, w *verifC14World, n int) []verifC14Case {
 
 type verifC14Opts struct {
 	repeat     bool
-	goroutines int // 0 = no concurrent pass
+	goroutines int  // 0 = no concurrent pass
+	concFirst  bool // run the concurrent pass BEFORE the serial one (shared state, if any, is still cold)
 }
 
 // inputClass names the input class of a case for the signature of a panic.
@@ -823,6 +826,13 @@ func verifC14Batch(rec *kit.Rec, w *verifC14World, cases []verifC14Case, o verif
 		if string(c.Seed) != c.seedCopy {
 			rec.Count("seed_argument_modified_by_callee", 1)
 			c.Seed = []byte(c.seedCopy)
+		}
+	}
+	var got [][]verifC14Out
+	if o.goroutines > 0 && o.concFirst {
+		got = verifC14Conc(w, cases, o.goroutines)
+		for i := range cases {
+			restore(&cases[i])
 		}
 	}
 	// pass A: every case once, all oracles
@@ -865,6 +875,21 @@ func verifC14Batch(rec *kit.Rec, w *verifC14World, cases []verifC14Case, o verif
 			rec.Distinct("configs", c.cfg.hash)
 			rec.Distinct("config_shapes", c.cfg.feat)
 		}
+		if verifC14DumpTo != nil {
+			verdict := "ok"
+			if out.Kind == 'P' {
+				verdict = "bad"
+			} else if out.Kind == 'A' {
+				if sig, _, _ := verifC14Judge(c.cfg, c.Fam, []byte(out.IP), out.Flag, path, c.addrFunc()); sig != "" {
+					verdict = "bad"
+				}
+			}
+			o := string(out.Kind)
+			if out.Kind == 'A' {
+				o += fmt.Sprintf(" %s %v", hex.EncodeToString([]byte(out.IP)), out.Flag)
+			}
+			verifC14DumpTo.line(fmt.Sprintf("%d/%d/%s/%d/%s/%x", w.id, i, path, c.Gen, c.famName(), c.seedCopy), verdict, o)
+		}
 	}
 	// pass B: the same cases again, in reverse order
 	if o.repeat {
@@ -894,69 +919,122 @@ func verifC14Batch(rec *kit.Rec, w *verifC14World, cases []verifC14Case, o verif
 	for i := range serial {
 		serial[i].res = nil
 	}
-	// concurrent pass: G goroutines over the same case list, each from its own starting point and direction
-	if G := o.goroutines; G > 0 {
-		type mm struct {
-			i   int
-			got verifC14Out
+	if o.goroutines > 0 {
+		if got == nil {
+			got = verifC14Conc(w, cases, o.goroutines)
 		}
-		found := make([][]mm, G)
-		var wg sync.WaitGroup
-		start := make(chan struct{})
-		n := len(cases)
-		for g := 0; g < G; g++ {
-			wg.Add(1)
-			go func(g int) {
-				defer wg.Done()
-				<-start
-				off := g * n / G
-				for k := 0; k < n; k++ {
-					i := (off + k) % n
-					if g%2 == 1 {
-						i = (off + n - k) % n
-					}
-					out := verifC14Run(w.sel, &cases[i])
-					if !out.same(serial[i]) {
-						found[g] = append(found[g], mm{i, out})
-					}
-				}
-			}(g)
-		}
-		close(start)
-		wg.Wait()
-		rec.Count("concurrent_selections", G*n)
-		rec.Distinct("goroutine_counts", G)
-		for g := range found {
-			for _, m := range found[g] {
-				c := &cases[m.i]
-				rec.Count("concurrent_mismatches", 1)
-				rec.Count("concurrent_mismatches_"+c.purityClass(), 1)
-				rec.Violation("purity:concurrent-differs-from-serial:"+c.purityClass(),
-					fmt.Sprintf("with %d goroutines selecting concurrently, a selection returned something else than the same selection run serially", G),
-					map[string]interface{}{"case": c.describe(w.id), "goroutines": G, "serial": serial[m.i].String(), "concurrent": m.got.String()})
-				// a result that differs from the serial one is also put before the address / panic oracles: whatever the
-				// reason for the difference, it must still be a proper address inside the configured subnets
-				switch m.got.Kind {
-				case 'A':
-					if sig, msg, _ := verifC14Judge(c.cfg, c.Fam, []byte(m.got.IP), m.got.Flag, c.path(), c.addrFunc()); sig != "" {
-						rec.Violation(sig, "(concurrent phase) "+msg, map[string]interface{}{"case": c.describe(w.id), "goroutines": G, "result": m.got.String()})
-					}
-				case 'P':
-					rec.Violation("panic:"+verifC14InputClass(c)+":"+m.got.Site,
-						fmt.Sprintf("(concurrent phase) selection panicked instead of returning an error: %s (in %s)", m.got.Err, m.got.Site), c.describe(w.id))
-				}
-			}
-		}
+		verifC14Compare(rec, w, cases, serial, got, o.concFirst)
 		for i := range cases {
-			if string(cases[i].Seed) != cases[i].seedCopy {
-				rec.Count("seed_argument_modified_by_callee", 1)
-				cases[i].Seed = []byte(cases[i].seedCopy)
+			restore(&cases[i])
+		}
+	}
+}
+
+// verifC14Conc runs the case list in G goroutines at once, each from its own starting point and in
+// its own direction, and returns what each goroutine got for each case.
+func verifC14Conc(w *verifC14World, cases []verifC14Case, G int) [][]verifC14Out {
+	got := make([][]verifC14Out, G)
+	var wg sync.WaitGroup
+	start := make(chan struct{})
+	n := len(cases)
+	for g := 0; g < G; g++ {
+		got[g] = make([]verifC14Out, n)
+		wg.Add(1)
+		go func(g int) {
+			defer wg.Done()
+			<-start
+			off := g * n / G
+			for k := 0; k < n; k++ {
+				i := (off + k) % n
+				if g%2 == 1 {
+					i = (off + n - k) % n
+				}
+				out := verifC14Run(w.sel, &cases[i])
+				out.res = nil
+				got[g][i] = out
+			}
+		}(g)
+	}
+	close(start)
+	wg.Wait()
+	return got
+}
+
+// verifC14Compare holds every concurrent result against the serial result of the same case.
+func verifC14Compare(rec *kit.Rec, w *verifC14World, cases []verifC14Case, serial []verifC14Out, got [][]verifC14Out, concFirst bool) {
+	G := len(got)
+	rec.Count("concurrent_selections", G*len(cases))
+	if concFirst {
+		rec.Count("concurrent_selections_before_any_serial_call", G*len(cases))
+	}
+	rec.Distinct("goroutine_counts", G)
+	for g := range got {
+		for i, out := range got[g] {
+			if out.same(serial[i]) {
+				continue
+			}
+			c := &cases[i]
+			rec.Count("concurrent_mismatches", 1)
+			rec.Count("concurrent_mismatches_"+c.purityClass(), 1)
+			rec.Violation("purity:concurrent-differs-from-serial:"+c.purityClass(),
+				fmt.Sprintf("with %d goroutines selecting concurrently, a selection returned something else than the same selection run serially", G),
+				map[string]interface{}{"case": c.describe(w.id), "goroutines": G, "serial": serial[i].String(), "concurrent": out.String(), "concurrent_phase_ran_first": concFirst})
+			// a result that differs from the serial one is also put before the address / panic oracles: whatever the
+			// reason for the difference, it must still be a proper address inside the configured subnets
+			switch out.Kind {
+			case 'A':
+				if sig, msg, _ := verifC14Judge(c.cfg, c.Fam, []byte(out.IP), out.Flag, c.path(), c.addrFunc()); sig != "" {
+					rec.Violation(sig, "(concurrent phase) "+msg, map[string]interface{}{"case": c.describe(w.id), "goroutines": G, "result": out.String()})
+				}
+			case 'P':
+				rec.Violation("panic:"+verifC14InputClass(c)+":"+out.Site,
+					fmt.Sprintf("(concurrent phase) selection panicked instead of returning an error: %s (in %s)", out.Err, out.Site), c.describe(w.id))
 			}
 		}
 	}
 }
 
 var verifC14G = []int{2, 3, 4, 8, 16, 32}
+
+// verifC14Dump: with VERIF_C14_DUMP=<dir> every serial outcome is also written to <dir>/<monitor>.tsv, so that two
+// trees (e.g. the pinned one and one carrying a proposed fix) can be compared case by case.  Not an oracle.
+type verifC14Dump struct {
+	f *os.File
+	w *strings.Builder
+}
+
+func verifC14OpenDump(mon string) *verifC14Dump {
+	d := os.Getenv("VERIF_C14_DUMP")
+	if d == "" {
+		return nil
+	}
+	f, err := os.Create(filepath.Join(d, mon+".tsv"))
+	if err != nil {
+		return nil
+	}
+	return &verifC14Dump{f: f, w: &strings.Builder{}}
+}
+
+func (d *verifC14Dump) line(key string, verdict string, out string) {
+	if d == nil {
+		return
+	}
+	fmt.Fprintf(d.w, "%s\t%s\t%s\n", key, verdict, out)
+	if d.w.Len() > 1<<20 {
+		d.f.WriteString(d.w.String())
+		d.w.Reset()
+	}
+}
+
+func (d *verifC14Dump) close() {
+	if d == nil {
+		return
+	}
+	d.f.WriteString(d.w.String())
+	d.f.Close()
+}
+
+var verifC14DumpTo *verifC14Dump
 
 // verifC14ErrClass shortens an error text to its constant part (statistics only, never an oracle).
 func verifC14ErrClass(e string) string {
@@ -996,6 +1074,9 @@ func verifC14FixedWorlds(t *testing.T, rec *kit.Rec) []*verifC14World {
 			{Weight: u(3), Subnets: []string{"2001:db8:3::/48"}},
 			{Weight: u(3), Subnets: []string{"203.0.113.0/24", "203.0.113.0/24"}}}},
 		8: {WeightedSubnets: []*pb.PhantomSubnets{{Weight: u(1), Subnets: []string{"::ffff:192.0.2.0/120", "::192.0.2.0/120", "0.0.0.0/0", "::/0"}}}},
+		9: {WeightedSubnets: []*pb.PhantomSubnets{
+			{Weight: u(1), RandomizeDstPort: &tr, Subnets: []string{"::768:ca40/123"}},
+			{Weight: u(1), Subnets: []string{"0.0.0.0/0"}}}},
 	}}
 	ws = append(ws, verifC14FromSelector(-2, hand))
 	return ws
@@ -1006,13 +1087,15 @@ func verifC14FixedWorlds(t *testing.T, rec *kit.Rec) []*verifC14World {
 func TestVerifC14Select(t *testing.T) {
 	rec := kit.NewRec("C14", "select")
 	defer rec.Close()
+	verifC14DumpTo = verifC14OpenDump("select")
+	defer verifC14DumpTo.close()
 	r := kit.Rand("c14/select")
 	dir := t.TempDir()
 	worlds, per := kit.Tier(400, 6000), kit.Tier(100, 500)
 	concEvery := kit.Tier(1, 4)
 	bi := 0
 	for _, w := range verifC14FixedWorlds(t, rec) {
-		verifC14Batch(rec, w, verifC14GenCases(r, w, 4*per), verifC14Opts{repeat: true, goroutines: verifC14G[bi%len(verifC14G)]})
+		verifC14Batch(rec, w, verifC14GenCases(r, w, 4*per), verifC14Opts{repeat: true, goroutines: verifC14G[bi%len(verifC14G)], concFirst: bi%2 == 1})
 		bi++
 	}
 	for wi := 0; wi < worlds; wi++ {
@@ -1023,6 +1106,7 @@ func TestVerifC14Select(t *testing.T) {
 		o := verifC14Opts{repeat: true}
 		if wi%concEvery == 0 {
 			o.goroutines = verifC14G[bi%len(verifC14G)]
+			o.concFirst = (bi/len(verifC14G))%2 == 0
 			bi++
 		}
 		verifC14Batch(rec, w, verifC14GenCases(r, w, per), o)
@@ -1035,17 +1119,19 @@ func TestVerifC14Select(t *testing.T) {
 func TestVerifC14Concurrent(t *testing.T) {
 	rec := kit.NewRec("C14", "concurrent")
 	defer rec.Close()
+	verifC14DumpTo = verifC14OpenDump("concurrent")
+	defer verifC14DumpTo.close()
 	r := kit.Rand("c14/concurrent")
 	dir := t.TempDir()
 	worlds, per := kit.Tier(60, 600), kit.Tier(100, 200)
 	bi := 0
 	for _, w := range verifC14FixedWorlds(t, rec) {
-		verifC14Batch(rec, w, verifC14GenCases(r, w, 2*per), verifC14Opts{goroutines: verifC14G[(bi+3)%len(verifC14G)]})
+		verifC14Batch(rec, w, verifC14GenCases(r, w, 2*per), verifC14Opts{goroutines: verifC14G[(bi+3)%len(verifC14G)], concFirst: bi%2 == 0})
 		bi++
 	}
 	for wi := 0; wi < worlds; wi++ {
 		w := verifC14GenWorld(t, rec, r, wi, dir)
-		verifC14Batch(rec, w, verifC14GenCases(r, w, per), verifC14Opts{goroutines: verifC14G[bi%len(verifC14G)]})
+		verifC14Batch(rec, w, verifC14GenCases(r, w, per), verifC14Opts{goroutines: verifC14G[bi%len(verifC14G)], concFirst: (bi/len(verifC14G))%2 == 0})
 		bi++
 	}
 	rec.Count("worlds", worlds+2)
@@ -1055,6 +1141,8 @@ func TestVerifC14Concurrent(t *testing.T) {
 func TestVerifC14Offsets(t *testing.T) {
 	rec := kit.NewRec("C14", "offsets")
 	defer rec.Close()
+	dump := verifC14OpenDump("offsets")
+	defer dump.close()
 	r := kit.Rand("c14/offsets")
 	nsub := kit.Tier(90, 1800)
 	fixed := []string{"0.1.2.0/24", "64:ff9b::/116", "0.0.0.0/24", "::/120", "::ffff:0:0/116", "255.255.255.0/24", "ffff:ffff:ffff:ffff:ffff:ffff:ffff:f000/116",
@@ -1130,6 +1218,16 @@ func TestVerifC14Offsets(t *testing.T) {
 						seen[a] = off
 					}
 				}
+			}
+			if dump != nil {
+				verdict, o := "ok", "E"
+				if sig != "" {
+					verdict = "bad"
+				}
+				if ip, fl, ok := verifC14Digest(res); ok {
+					o = fmt.Sprintf("A %s %v", hex.EncodeToString([]byte(ip)), fl)
+				}
+				dump.line(fmt.Sprintf("%s/%d", text, off), verdict, o)
 			}
 			if sig != "" {
 				bad = true
